@@ -28,6 +28,12 @@ CHECKS = {
     "C19": dict(ready=True, category="exploration", technique="runtime monitoring: structural invariant monitor evaluated after every public operation on the GSOM network (own capacity-enforcing, counting storage) and on the Rosomaxa population (via NetworkState), over hostile input streams",
         text="After every store_batch/smooth/compact/on_generation the map is walked: unique coordinates equal to node identity, exact find(), finite weights of input dimension, storage within capacity, finite error measures, compaction never grows nor leaves < 4 nodes, conservation of stored individuals, phases only forward, elite within bounds; eleven stream classes incl. constant/subnormal/outlier/tiny-range inputs and all config knobs.",
         note="Finite inputs |v| <= 1e12, documented config ranges; Node::error (+inf observed) is not among the judged error measures.", design_ref="DESIGN.md §3 C19"),
+    "C09": dict(ready=True, category="exploration", technique="runtime monitoring: order-law monitor (reflexive/antisymmetric/transitive/total, agreement with an own lexicographic oracle) over exhaustive small pools and harvested solver solutions x generated goals",
+        text="InsertionCost: all vectors over an 8-value alphabet up to length 3 exhaustively plus random pools up to length 9, every pair and triple; add/sub inverse on exactly representable operands. Goals: pools of 24-33 real solutions per generated problem x 18 objective-list shapes (incl. multi-objective and alternative goals), all pairs and (single-layer goals) all triples, total_order compared with lexicographic fitness; synthetic goals over the real GoalBuilder reach the +-0 handling.",
+        note="No NaN/inf; mutual order of +-0 inside InsertionCost unspecified; solutions not seed-reproducible (problem, goal, operator sequence are).", design_ref="DESIGN.md §3 C09"),
+    "C12": dict(ready=True, category="fault_enumeration", technique="runtime monitoring with injected faults: single-breach mutants of recorded valid (problem, solution) pairs at enumerated sites, classified by the independent replayer O1, judged by the real checker",
+        text="For solver outputs O1 finds fully clean, CheckerContext::check must accept; then every mutation class the property names is applied at every applicable site (quick: seeded sample per class and solution), mutants O1 still finds valid are discarded as equivalent, all others must be rejected. Fault enumeration is the right level: the fault classes and sites are finite per solution and are listed in the evidence with accepted/rejected counts per class.",
+        note="O1 decides validity; features the checker documents as unsupported (skills, compatibility, order, latest departure) are not injected; limit/capacity/relation breaches are injected on the problem side.", design_ref="DESIGN.md §3 C12"),
     "C03": dict(ready=True, category="exploration", technique="runtime monitoring: replay oracle recomputing schedule/load/distance/statistics/cost from routing data and visiting order, compared with every reported number",
         text="O1 replays each tour of each recorded solution from (visiting order, first departure): stop arrival/departure within the one-unit output rounding, per-stop load and cumulative distance exactly, tour and overall statistics, cost = fixed + distance*cd + duration*ct, and that the reported place tag belongs to a place explaining the reported interval.",
         note="Integral matrices/durations; fractional profile scale widens the per-leg split tolerance; tours with transit stops/commute only per-stop consistency (not generated).", design_ref="DESIGN.md §3 C03"),
